@@ -165,6 +165,29 @@ RejectedUnchanged == [][last'.ret \in {"rejected", "valid", "invalid", "value"} 
 \* frame: an operation touches at most its target (or creates one new object)
 Frame == [][\A j \in 1..Len(objs) : (j # last'.o.k \/ Target(last'.o) = "new") => objs'[j] = objs[j]]_vars
 
+(***************************************************************************)
+(* Inductive step (unbounded depth for the structural invariants): start   *)
+(* from EVERY structurally well-formed single model over Vars - any        *)
+(* acyclic graph on any node subset, any latent subset, any assignment of  *)
+(* content-free CPDs (only their parent sets matter for the structure;     *)
+(* parent sets may mention variables that left the graph) - and take ONE   *)
+(* step of Next.  IndInv holds in all those states by construction; TLC    *)
+(* checks it in every successor together with the action properties.       *)
+(***************************************************************************)
+RandCPD(P) == [parents |-> P, random |-> TRUE, f |-> [scope |-> {}, val |-> <<>>]]
+CPDMaps(N) == UNION {{c \in [D -> {RandCPD(P) : P \in SUBSET Vars}] : \A v \in D : v \notin c[v].parents} : D \in SUBSET N}
+StructModels ==
+    UNION {UNION {{[nodes |-> N, edges |-> E, latents |-> L, cpds |-> c] : L \in SUBSET N, c \in CPDMaps(N)}
+                  : E \in {X \in SUBSET (N \X N) : Acyclic(N, X)}} : N \in SUBSET Vars}
+IndInvOf(m) == /\ Acyclic(m.nodes, m.edges)
+               /\ \A e \in m.edges : e[1] \in m.nodes /\ e[2] \in m.nodes
+               /\ m.latents \subseteq m.nodes
+               /\ DOMAIN m.cpds \subseteq m.nodes
+IndInv == \A k \in 1..Len(objs) : IndInvOf(objs[k])
+IndInit == /\ sid = 0 /\ hist = <<>> /\ last = [o |-> NoOp, ret |-> "init"]
+           /\ \E m \in StructModels : objs = <<m>>
+OneStep == TLCGet("level") <= 2
+
 \* depth bounds for the history-free BFS (TLCGet("level") counts states on the path)
 DepthBound4 == TLCGet("level") <= 4
 DepthBound5 == TLCGet("level") <= 5
